@@ -421,6 +421,53 @@ def summarize(counters, extra, tier):
 def stress(ctx):
     from vm.checks import _stress
     _stress.stress_filter(ctx, ctx.rng('stress'))
+    scale(ctx)
+
+
+def scale(ctx):
+    """Scale: id collections with more than 1000 entries on a long axis."""
+    import scipy.sparse as sp
+    r = ctx.rng('scale')
+    for axis in ('sample', 'observation'):
+        n = 1300
+        ids = ['id%04d' % i for i in range(n)]
+        other = ['x', 'y']
+        rng = np.random.default_rng(r.randrange(2 ** 32))
+        V = rng.integers(0, 3, size=(n, 2)).astype(float)
+        D = V if axis == 'observation' else V.T
+        spec = gen.Spec(ids if axis == 'observation' else other,
+                        other if axis == 'observation' else ids, D)
+        desc = {'scale': '%d ids on %s' % (n, axis)}
+
+        def make():
+            return gen.build(ctx.biom, spec, 'csr')
+        keep = r.sample(ids, 1100)
+        for coll in ('list', 'set', 'ndarray'):
+            for invert in (False, True):
+                res = make().filter(as_collection(r, keep, coll), axis=axis,
+                                    invert=invert, inplace=False)
+                check_result(res, expected_filter(spec, keep, axis, invert),
+                             'filter-ids-long', desc)
+                ctx.count('scale_long_collections')
+            for bogus in ('id9999', ids[-1] + '0'):
+                t = make()
+                before = snap.snap(t)
+                for inplace in (False, True):
+                    try:
+                        t.filter(as_collection(r, keep + [bogus], coll),
+                                 axis=axis, inplace=inplace)
+                    except Exception:
+                        ctx.count('unknown_id_refused')
+                    else:
+                        raise Violation('C08/unknown-id-accepted', 'a %d-id '
+                                        '%s naming the unknown id %r was '
+                                        'accepted; %r' % (len(keep) + 1, coll,
+                                                          bogus, desc))
+                    d = snap.diff(snap.snap(t), before)
+                    if d:
+                        raise Violation('C08/unknown-id-changed-table',
+                                        '%s; %r' % ('; '.join(d), desc))
+        ctx.case(desc, True)
 
 
 def san_indices(tier):
